@@ -50,6 +50,19 @@ CHECKS = {
         "verified; near-ties of overlap/step at a half-integer accept either neighbour (float rounding is not modelled); "
         "hand-written model tied to the code by the per-run correspondence only.",
         "5/C19"),
+    "C16": (
+        "Lean 4 proof over the reals (induction on dimension; Real.arccos/cos/sin/sqrt) + per-run Float-model/code correspondence",
+        "Theorems in lean/Dreye/Props/C16.lean prove over the reals, for every dimension >= 2 and every point (origin, axis "
+        "points, negative coordinates included), that the modelled cartesian->n-sphere conversion returns the Euclidean norm "
+        "as radius, polar angles in [0,pi] and the azimuth in [0,2pi], and that converting back recovers the point exactly; "
+        "lean/Dreye/Props/C16Bary.lean (when present) adds the barycentric half. Every run executes the same model text at "
+        "IEEE doubles and compares dreye's transformer matrix, both barycentric directions (centred, L1 none/scalar/per-row), "
+        "chromatic reduction, both spherical directions with it, and evaluates the property predicates (unit edges, L1 sums, "
+        "scale invariance, ranges, round trips) on dreye's output.",
+        "Trusted: Lean kernel; libm (the theorems are about real numbers; the Float run of the model is trusted to ~1e-12 and "
+        "arccos near +-1 is compared at 3e-8); np.linalg.inv is modelled by Gauss-Jordan and compared, not verified; the "
+        "barycentric theorems are being added incrementally (see evidence.theorems for what is proved in this run).",
+        "5/C16"),
 }
 
 NOT_YET = "check not built yet in this round of work (planned in DESIGN.md section 5); no claim is made"
